@@ -272,12 +272,22 @@ func (o *Optimizer) OptimizeStatements(stmts []ast.Statement) []ast.Statement {
 			if litExpr, ok := condition.(*ast.LiteralExpr); ok {
 				if boolLit, ok := litExpr.Value.(ast.BoolLiteral); ok {
 					// Constant condition - eliminate dead branch
+					live := s.ElseBlock
 					if boolLit.Value {
-						// Condition is always true - use only then block
-						result = append(result, o.OptimizeStatements(s.ThenBlock)...)
+						live = s.ThenBlock
+					}
+					kept := o.OptimizeStatements(live)
+					if declaresVariable(live) {
+						// The branch is a scope of its own: a `$ y` inside it
+						// must not become a declaration of the enclosing scope
+						// (it would collide with, or shadow, a later `$ y`
+						// there). Keep the block, drop only the dead branch.
+						result = append(result, &ast.IfStatement{
+							Condition: &ast.LiteralExpr{Value: ast.BoolLiteral{Value: true}},
+							ThenBlock: kept,
+						})
 					} else {
-						// Condition is always false - use only else block
-						result = append(result, o.OptimizeStatements(s.ElseBlock)...)
+						result = append(result, kept...)
 					}
 					continue
 				}
@@ -411,6 +421,17 @@ func (o *Optimizer) OptimizeStatements(stmts []ast.Statement) []ast.Statement {
 	}
 
 	return result
+}
+
+// declaresVariable reports whether a block declares a variable at its top level.
+func declaresVariable(stmts []ast.Statement) bool {
+	for _, st := range stmts {
+		switch st.(type) {
+		case *ast.AssignStatement, ast.AssignStatement:
+			return true
+		}
+	}
+	return false
 }
 
 // optimizerFacts is a copy of the optimizer's flow facts.
